@@ -348,7 +348,7 @@ func genTransportSkel(repo string) (string, error) {
 		{"", "newTransport"}, {"", "newCallExchange"}, {"", "newTransportCall"},
 		{"", "newTunnel"}, {"tunnel", "Write"}, {"tunnel", "Read"}, {"tunnel", "Close"},
 		{"endpointClient", "serve"}, {"endpointClient", "Close"}, {"endpointClient", "Dial"},
-		{"Endpoint", "sendAccept"}, {"Endpoint", "serve"}, {"Endpoint", "Accept"}, {"Endpoint", "Close"},
+		{"", "newEndpoint"}, {"Endpoint", "sendAccept"}, {"Endpoint", "serve"}, {"Endpoint", "Accept"}, {"Endpoint", "Close"},
 		{"connMailBox", "Close"}, {"connMailBox", "receive"}, {"connMailBox", "deliver"},
 		{"closerOnce", "Close"},
 	}
